@@ -6,5 +6,9 @@ import (
 
 // fdatasync flushes written data to a file descriptor.
 func fdatasync(db *DB) error {
+	if err := verifBefore(db, "fdatasync", 0, nil, 0); err != nil {
+		return err
+	}
+	defer verifAfter(db, "fdatasync", 0, nil, 0, nil)
 	return syscall.Fdatasync(int(db.file.Fd()))
 }
